@@ -22,7 +22,7 @@ func init() {
 }
 
 func C04Params(thorough bool) harness.GenParams {
-	p := harness.GenParams{MaxItems: 12, MaxOps: 10, Reopen: true, Overflow: true, MaxPages: 512, AbortHeavy: true}
+	p := harness.GenParams{MaxItems: 12, MaxOps: 10, Reopen: true, LimitOpen: true, Overflow: true, MaxPages: 512, AbortHeavy: true}
 	if thorough {
 		p.MaxItems, p.MaxOps, p.MaxPages = 28, 14, 320
 		p.BigAllocs = true
